@@ -198,23 +198,23 @@ Proof.
       assert (HsI : sorted_by (elt_cmp (q_dirs q)) I) by apply (isort_sorted _ (elt_cmp_preorder_l (q_dirs q))).
       destruct (q_distinct q) eqn:Ed.
       * cbn [andb] in Hdw. destruct (no_window q Hdw) as [_ Hoff]. rewrite Hoff.
-        rewrite Ed in Hk7. cbn [andb] in Hk7.
+        cbn [andb] in Hk7.
         destruct (existsb _ _) eqn:Ex in Hk7; [discriminate|].
         destruct (no_negzero_norm _ _ _ _ Es Ex) as [HB HS]. rewrite HB.
-        unfold distinct_post. rewrite El, Hoff. cbn [skipn]. unfold window at 1. cbn [skipn].
+        unfold distinct_post. rewrite El, Hoff. unfold window. cbn [skipn].
         rewrite dedupe_rows_map. rewrite HS.
         -- rewrite <- dedupe_rows_map. apply spec_of_sorted_distinct; assumption.
         -- intros e He. eapply Permutation_in; [exact HpI|]. eapply dedupe_incl; eauto.
-      * apply rows_spec_norm. apply spec_of_sorted; assumption.
+      * apply rows_spec_norm. exact (spec_of_sorted (q_dirs q) B I (q_off q) None HpI HsI).
   - (* no ORDER BY *)
     rewrite limit_machine_is_window_l in Hm. inversion Hm; subst rows. clear Hm.
     rewrite (no_order_dirs q Eo) in *.
     destruct (q_distinct q) eqn:Ed.
     + cbn [andb] in Hdw. destruct (no_window q Hdw) as [Hlim Hoff]. rewrite Hlim, Hoff.
-      rewrite Ed in Hk7. cbn [andb] in Hk7.
+      cbn [andb] in Hk7.
       destruct (existsb _ _) eqn:Ex in Hk7; [discriminate|].
       destruct (no_negzero_norm _ _ _ _ Es Ex) as [HB HS]. rewrite HB.
-      unfold distinct_post. rewrite Hlim, Hoff. cbn [skipn]. unfold window at 1. cbn [skipn].
+      unfold distinct_post. rewrite Hlim, Hoff. unfold window. cbn [skipn].
       rewrite dedupe_rows_map. rewrite HS.
       * rewrite <- dedupe_rows_map. apply spec_of_sorted_distinct; [reflexivity|apply sorted_no_keys].
       * intros e He. eapply dedupe_incl; eauto.
